@@ -209,3 +209,34 @@ package contracts
 //@ func context.Context.Done :: c -> ch
 //@   trusted
 //@   pure
+
+//@ -- strconv / bytes / crypto / encoding ----------------------------------------
+
+//@ -- dec(n): decimal representation of n (uninterpreted; fmt %d and strconv.AppendInt(…,10) both produce it)
+//@ axiom [dec-nonempty] forall n int :: len(dec(n)) >= 1
+//@ axiom [dec-ends-in-digit] forall n int :: 48 <= dec(n)[len(dec(n))-1] && dec(n)[len(dec(n))-1] <= 57
+
+//@ func strconv.AppendInt :: dst, i, base -> result
+//@   trusted
+//@   pure
+//@   requires base == 10
+//@   ensures result == dst ++ dec(i)
+
+//@ func bytes.TrimSuffix :: s, suffix -> result
+//@   trusted
+//@   pure
+//@   ensures result == ite(hasSuffix(s, suffix), s[:len(s)-len(suffix)], s)
+
+//@ pure func md5sum(b seq[byte]) seq[byte]
+//@ pure func hexstr(b seq[byte]) string
+//@ axiom [md5-len] forall b seq[byte] :: len(md5sum(b)) == 16
+
+//@ func md5.Sum :: data -> sum
+//@   trusted
+//@   pure
+//@   ensures sum == md5sum(data)
+
+//@ func hex.EncodeToString :: src -> result
+//@   trusted
+//@   pure
+//@   ensures result == hexstr(src)
